@@ -93,12 +93,23 @@ class Canon:
                 return ("num", args[0])
             if name == "builtins.slice" and len(args) == 2:
                 return ("slice", args[0], args[1], C(None))
+            if name == "numpy.random.choice" and args and args[0][0] == "call" \
+                    and args[0][1] in ("numpy.array", "numpy.asarray") and len(args[0][2]) == 1 \
+                    and not args[0][3]:
+                # choice converts its population to an array itself
+                args = (args[0][2][0],) + tuple(args[1:])
             return ("call", name, args, kws, t[4])
         if k == "sub":
             b = self.norm(t[1])
             i = self.norm(t[2])
             # tensor row
             if b[0] in ("tensor", "copy", "zeros") and self._is_tensor(b):
+                if i[0] == "tuple" and len(i[1]) == 2 and i[1][0][0] != "slice" \
+                        and i[1][1][0] != "slice":
+                    # T[r, c] is T[r][c]
+                    return self.norm(("sub", ("sub", t[1], t[2][1][0] if t[2][0] == "tuple"
+                                              else i[1][0]),
+                                      t[2][1][1] if t[2][0] == "tuple" else i[1][1]))
                 if i[0] == "sub" and i[1][0] == "attr" and i[1][2] == self.map_attr:
                     return ("row", b, i[2])
                 if i[0] == "slice":
@@ -107,6 +118,35 @@ class Canon:
             if self._is_vector(b):
                 fam, elem = self.index_family(i)
                 return ("cell", b, fam, elem)
+            rng = None                 # the iterable the index ranges over
+            if i[0] == "elem":
+                rng = i[1]
+            elif i[0] == "sub" and i[2] == C(1) and i[1][0] == "elem" and i[1][1][0] == "call" \
+                    and i[1][1][1] == "builtins.enumerate" and len(i[1][1][2]) == 1:
+                rng = i[1][1][2][0]        # the value part of enumerate(IT)'s element
+            if b[0] == "dictobj" and rng is not None:
+                # the same for a dict filled by one unconditional store per element of IT
+                h = self.ip.heap.get(b[1], {})
+                if not h.get("items") and len(h.get("dyn", ())) == 1:
+                    k_, v_, pc_ = h["dyn"][0]
+                    rel = tuple(c for c in pc_[len(h.get("pc0", ())):] if c[0] != "fact") \
+                        if tuple(pc_[:len(h.get("pc0", ()))]) == tuple(h.get("pc0", ())) else None
+                    if rel is not None and len(rel) == 1 and rel[0][0] == "inloop" \
+                            and isinstance(k_, tuple) and k_[0] == "elem" and k_[2] == rel[0][1] \
+                            and self.norm(k_[1]) == self.norm(rng):
+                        return self.norm(_subst_term(v_, k_, i)) if k_ != i else self.norm(v_)
+            if b[0] == "comp" and b[1] == "dict" and len(b[2]) == 2 and len(b[3]) == 1 \
+                    and not b[3][0][2]:
+                # D[k] for D = {K(x): V(x) for x in IT} and k = K(x') with x' ranging over the same
+                # IT: V(x')
+                lid, it, _ = b[3][0]
+                x_old = ("elem", it, lid)
+                if i[0] == "elem" and i[1] == it and b[2][0] == x_old:
+                    return self.norm(_subst_term(b[2][1], x_old, i))
+            if b[0] == "cell" and b[3] == "ALL" and i[0] != "slice":
+                # the i-th entry of a whole group segment v[start:end] is the group's entry i
+                # (in the linear form the layout uses: start + i)
+                return ("cell", b[1], b[2], i)
             return ("sub", b, i)
         if k == "slice":
             return ("slice",) + tuple(self.norm(x) for x in t[1:])
@@ -115,11 +155,20 @@ class Canon:
         if k in ("and", "or"):
             return (k, tuple(self.norm(x) for x in t[1]))
         if k == "cmp":
-            return ("cmp", t[1], self.norm(t[2]), self.norm(t[3]))
+            a_, b_ = self.norm(t[2]), self.norm(t[3])
+            if t[1] in ("in", "notin"):
+                # membership in frozenset(X) / set(X) / tuple(X) / list(X) is membership in X
+                while b_[0] == "call" and b_[1] in ("builtins.frozenset", "builtins.set",
+                                                    "builtins.tuple", "builtins.list") \
+                        and len(b_[2]) == 1 and not b_[3]:
+                    b_ = b_[2][0]
+            return ("cmp", t[1], a_, b_)
         if k == "bin":
             return ("bin", t[1], self.norm(t[2]), self.norm(t[3]))
         if k == "phi":
             c, a, b = self.norm(t[1]), self.norm(t[2]), self.norm(t[3])
+            if a == b:
+                return a                  # both alternatives are the same value
             # canonical orientation: positive condition first
             while True:
                 if c[0] == "not":
@@ -727,6 +776,14 @@ class Canon:
                 x, y = sorted([sa, sb])
                 return f_not(("atom", f"{x} is {y}"))
         return ("atom", self._show(t, ln))
+
+
+def _subst_term(t, old, new):
+    if t == old:
+        return new
+    if isinstance(t, tuple):
+        return tuple(_subst_term(x, old, new) for x in t)
+    return t
 
 
 # ====================================================================== formulas
